@@ -47,8 +47,14 @@ struct Ref {
     std::deque<std::vector<int>> Q;  // batches; members of one batch are mutually unordered
     std::vector<int> D;              // resumed directly from normal code, one after another, before the queue is flushed
     int running = -1;
-    std::vector<int> nest;           // coroutines that started a child with start(): they continue when the nested activation ends
-    std::vector<int> drain_nest;     // coroutines inside install_queue_and_call(): they continue when the ready queue has been drained
+    // nested contexts, innermost last: {0, a} - a started a child with start() and continues as soon as the child stops
+    // running; {1, a} - a is inside install_queue_and_call() and continues when the ready queue has been drained
+    std::vector<std::pair<int, int>> ctx;
+    bool in_drain() const {
+        for (auto &c : ctx)
+            if (c.first == 1) return true;
+        return false;
+    }
     int awaited_by[MAXA] = {-1, -1, -1, -1, -1, -1, -1};  // co_await child: the awaiting coroutine gets a direct transfer when the child finishes
     std::vector<int> allowed;        // who may produce the next event (empty + running>=0: the running one continues)
     bool expect_continue = false;
@@ -71,24 +77,24 @@ struct Ref {
     void next_from_queue() {
         running = -1;
         expect_continue = false;
-        if (!nest.empty()) {
-            // the nested activation begun by start() is over: its caller simply continues; the ready queue is not drained
-            running = nest.back();
-            nest.pop_back();
+        if (!ctx.empty() && ctx.back().first == 0) {
+            // the child begun by start() stopped running: its caller simply continues; the ready queue is not drained
+            running = ctx.back().second;
+            ctx.pop_back();
             expect_continue = true;
             allowed.clear();
             return;
         }
-        if (!D.empty() && !one_at_a_time && drain_nest.empty()) {  // (a nested activation only sees the ready queue)
+        if (!D.empty() && !one_at_a_time && !in_drain()) {  // (a nested activation only sees the ready queue)
             allowed = D;
             return;
         }
         while (!Q.empty() && Q.front().empty()) Q.pop_front();
         if (Q.empty()) {
-            if (!drain_nest.empty()) {
+            if (!ctx.empty() && ctx.back().first == 1) {
                 // the nested activation has drained everything that was ready: its caller goes on
-                running = drain_nest.back();
-                drain_nest.pop_back();
+                running = ctx.back().second;
+                ctx.pop_back();
                 expect_continue = true;
                 allowed.clear();
                 return;
@@ -199,7 +205,7 @@ struct Ref {
                     s = take_waiters(st.arg);
                 }
                 enqueue_batch(s);
-                drain_nest.push_back(a);
+                ctx.push_back({1, a});
                 next_from_queue();
                 break;
             }
@@ -275,7 +281,7 @@ struct Ref {
             case STARTF:
                 // the child runs at once as a nested activation; nothing from the ready queue may run before the caller continues
                 state[st.arg] = 1;
-                nest.push_back(a);
+                ctx.push_back({0, a});
                 running = -1;
                 expect_continue = false;
                 allowed = {st.arg};
